@@ -35,19 +35,22 @@ def stub_rhythm(w=0.25):
     return {"kind": "stub", "w": f2b(w)}
 
 
-def humans_on_join(human_bells, user_name=None, wheatley_bells=None):
+def humans_on_join(human_bells, user_name=None, wheatley_bells=None, namesake=False):
     """Messages sent on c_join: user list and assignments.  With --name (server mode) Wheatley's own
-    bells are assigned to a user of that name."""
+    bells are assigned to a user of that name - with `namesake`, to two users of that name (the same person
+    logged in twice, say) in turn."""
     users = [{"id": 11, "name": "Alice"}]
     msgs = []
     if user_name is not None:
+        if namesake:
+            users.append({"id": 7, "name": user_name})
         users.append({"id": 5, "name": user_name})
     msgs.append({"m": "user_list", "users": users})
     for b in sorted(human_bells):
         msgs.append({"m": "assign", "bell": b, "user": 11})
     if user_name is not None:
-        for b in sorted(wheatley_bells or []):
-            msgs.append({"m": "assign", "bell": b, "user": 5})
+        for i, b in enumerate(sorted(wheatley_bells or [])):
+            msgs.append({"m": "assign", "bell": b, "user": 7 if namesake and i % 2 == 0 else 5})
     return msgs
 
 
@@ -157,11 +160,20 @@ class WorldProp(Prop):
     def impl(self, req):
         sc = req["scenario"]
         argv = argv_for(sc)
+        import hashlib
+        import json
+        h = int(hashlib.sha1(json.dumps(sc, sort_keys=True, default=str).encode()).hexdigest()[:8], 16)
+        # verbosity is configuration too: a share of the sessions runs with the log on (-v / the default / -q)
+        level = {0: "DEBUG", 1: "DEBUG", 2: "INFO", 3: "WARNING"}.get((h // 1000) % 10) \
+            if "log_level" not in sc and not sc.get("preempt") else sc.get("log_level")
+        if level:
+            sc = dict(sc, log_level=level)
+            req["log_level"] = level
         if argv is not None and "argv" not in sc:
-            import hashlib
-            import json
-            h = int(hashlib.sha1(json.dumps(sc, sort_keys=True, default=str).encode()).hexdigest()[:8], 16)
             if (h % 1000) / 1000.0 < self.via_main_share or sc.get("prefer_main"):
+                if level:
+                    argv = argv + {"DEBUG": [["-v"], ["--verbose"], ["-v", "-v"]][h % 3], "INFO": [],
+                                   "WARNING": [["-q"], ["--quiet"]][h % 2]}[level]
                 sc = dict(sc, argv=argv)      # this session goes through the real main(argv)
                 req["via_main"] = True
         res = sim.run(sc, self.agents(req))
